@@ -63,7 +63,7 @@ def slice_replay(standins=STANDINS, slicepkg='internal/zzslice', extra_roots=(),
         modpath = open(os.path.join(moddir, 'go.mod')).read().split('\n')[0].split()[1]
         out = os.path.join(d, 'slice.go')
         cmd = [C.BIN, 'slice', '--dir', moddir, '--pkg', job.pkg, '--out', out, '--pkgname', job.pkgname,
-               '--root', h, '--root', 'nd_failed', '--root', 'nd_assumeFailed']
+               '--root', h, '--root', 'nd_failed', '--root', 'nd_assumeFailed', '--root', 'nd_setrand']
         for r in extra_roots:
             cmd += ['--root', r]
         if inpkg:
